@@ -1115,4 +1115,193 @@ theorem Build_is_build (P : Par) (enc cfg : Val) (level outs errs : List Val) (d
           have he : (errs.map (opens P)).all id = true := by rw [← fe1]; rfl
           simp [ho, he, ao1, ae1, ao2, ae2, ao3, ae3, ao4, lo, le, List.append_assoc]
 
+/-! ### `normalizeScheme` -/
+
+def letterI (n : Int) : Bool := (decide (97 ≤ n) && decide (n ≤ 122)) || (decide (65 ≤ n) && decide (n ≤ 90))
+def restI (n : Int) : Bool :=
+  letterI n || (decide (48 ≤ n) && decide (n ≤ 57)) || ((decide (n = 46) || decide (n = 43)) || decide (n = 45))
+
+theorem letterI_eq (b : UInt8) : letterI b.toNat = OpenBuild.isLetter b := by
+  simp only [letterI, OpenBuild.isLetter, OpenBuild.isUpper, OpenBuild.isLower]
+  have h1 : (decide ((97 : Int) ≤ b.toNat)) = decide ((97 : UInt8) ≤ b) :=
+    decide_eq_decide.mpr (by rw [UInt8.le_iff_toNat_le]; simp; omega)
+  have h2 : (decide ((b.toNat : Int) ≤ 122)) = decide (b ≤ (122 : UInt8)) :=
+    decide_eq_decide.mpr (by rw [UInt8.le_iff_toNat_le]; simp; omega)
+  have h3 : (decide ((65 : Int) ≤ b.toNat)) = decide ((65 : UInt8) ≤ b) :=
+    decide_eq_decide.mpr (by rw [UInt8.le_iff_toNat_le]; simp; omega)
+  have h4 : (decide ((b.toNat : Int) ≤ 90)) = decide (b ≤ (90 : UInt8)) :=
+    decide_eq_decide.mpr (by rw [UInt8.le_iff_toNat_le]; simp; omega)
+  rw [h1, h2, h3, h4, Bool.or_comm]
+
+theorem restI_eq (b : UInt8) : restI b.toNat = OpenBuild.schemeRest b := by
+  simp only [restI, OpenBuild.schemeRest, letterI_eq, OpenBuild.isDigit]
+  have h1 : (decide ((48 : Int) ≤ b.toNat)) = decide ((48 : UInt8) ≤ b) :=
+    decide_eq_decide.mpr (by rw [UInt8.le_iff_toNat_le]; simp; omega)
+  have h2 : (decide ((b.toNat : Int) ≤ 57)) = decide (b ≤ (57 : UInt8)) :=
+    decide_eq_decide.mpr (by rw [UInt8.le_iff_toNat_le]; simp; omega)
+  have h3 : ∀ k : Nat, k < 256 → (decide ((b.toNat : Int) = (k : Int))) = (b == UInt8.ofNat k) := by
+    intro k hk
+    rw [Bool.eq_iff_iff]; simp only [decide_eq_true_eq, beq_iff_eq]
+    exact byte_eq_lit b k hk
+  have e46 := h3 46 (by omega); have e43 := h3 43 (by omega); have e45 := h3 45 (by omega)
+  have e46' : decide ((b.toNat : Int) = 46) = (b == 46) := e46
+  have e43' : decide ((b.toNat : Int) = 43) = (b == 43) := e43
+  have e45' : decide ((b.toNat : Int) = 45) = (b == 45) := e45
+  rw [h1, h2, e46', e43', e45']
+  simp [Bool.or_assoc]
+
+def nsJ : Option Val → Env
+  | none => []
+  | some v => [("l2", v)]
+
+def nsFmt : Bytes := [109, 97, 121, 32, 110, 111, 116, 32, 99, 111, 110, 116, 97, 105, 110, 32, 37, 113]
+
+/-- one iteration: the byte at the index is classified; a byte outside the RFC 3986 set returns the error naming it -/
+theorem normalizeScheme_iter (P : Par) (rec : Stmt → State → GoMini.Out) (s : Bytes) (l0 : Val) (fl : Env) (i : Nat)
+    (hi : i < s.length) (t : Option Val) :
+    execS (X P) rec normalizeScheme_loop0.lbody ⟨[("p0", .bytes s), ("l0", l0), ("l1", .int i)] ++ nsJ t, fl⟩ =
+      if restI s[i].toNat then .cont ⟨[("p0", .bytes s), ("l0", l0), ("l1", .int i)] ++ nsJ (some (.int s[i].toNat)), fl⟩
+      else .ret [.bytes [], errV "fmt.Errorf" [.bytes nsFmt, .int s[i].toNat]]
+        ⟨[("p0", .bytes s), ("l0", l0), ("l1", .int i)] ++ nsJ (some (.int s[i].toNat)), fl⟩ := by
+  have hix := indexVal_bytes s i hi
+  generalize (s[i].toNat : Int) = n at hix ⊢
+  have m1 : ∀ σ' : State, Env.get "l2" σ'.loc = some (.int n) → matchCase (X P) σ' (.bool true)
+      [((Expr.bin BinOp.le (Expr.lit (Val.int 97)) (Expr.loc "l2")).and
+          (Expr.bin BinOp.le (Expr.loc "l2") (Expr.lit (Val.int 122)))).or
+        ((Expr.bin BinOp.le (Expr.lit (Val.int 65)) (Expr.loc "l2")).and
+          (Expr.bin BinOp.le (Expr.loc "l2") (Expr.lit (Val.int 90))))] = .ok (letterI n) := by
+    intro σ' h; apply matchCase_true1
+    simp [h, letterI, andK_ok_bool, orK_ok_bool, -andK_bool, -orK_bool]
+  have m2 : ∀ σ' : State, Env.get "l2" σ'.loc = some (.int n) → matchCase (X P) σ' (.bool true)
+      [(Expr.bin BinOp.le (Expr.lit (Val.int 48)) (Expr.loc "l2")).and
+        (Expr.bin BinOp.le (Expr.loc "l2") (Expr.lit (Val.int 57)))] = .ok (decide (48 ≤ n) && decide (n ≤ 57)) := by
+    intro σ' h; apply matchCase_true1
+    simp [h, andK_ok_bool, orK_ok_bool, -andK_bool, -orK_bool]
+  have m3 : ∀ σ' : State, Env.get "l2" σ'.loc = some (.int n) → matchCase (X P) σ' (.bool true)
+      [((Expr.bin BinOp.eq (Expr.loc "l2") (Expr.lit (Val.int 46))).or
+          (Expr.bin BinOp.eq (Expr.loc "l2") (Expr.lit (Val.int 43)))).or
+        (Expr.bin BinOp.eq (Expr.loc "l2") (Expr.lit (Val.int 45)))] =
+        .ok ((decide (n = 46) || decide (n = 43)) || decide (n = 45)) := by
+    intro σ' h; apply matchCase_true1
+    simp [h, andK_ok_bool, orK_ok_bool, -andK_bool, -orK_bool]
+  cases t <;>
+    (simp [normalizeScheme_loop0, Stmt.lbody, nsJ, hix, State.assign1, Env.set, andK_ok_bool, orK_ok_bool, -andK_bool, -orK_bool]
+     rw [m1 _ (by simp [Env.get]), m2 _ (by simp [Env.get]), m3 _ (by simp [Env.get])]
+     simp only [restI]
+     rcases Bool.eq_false_or_eq_true (letterI n) with hA | hA <;>
+     rcases Bool.eq_false_or_eq_true (decide (48 ≤ n) && decide (n ≤ 57)) with hB | hB <;>
+     rcases Bool.eq_false_or_eq_true ((decide (n = 46) || decide (n = 43)) || decide (n = 45)) with hC | hC <;>
+     simp only [hA, hB, hC] <;> simp [Env.get, nsFmt, errV])
+
+/-- the first byte (after the first) outside the RFC 3986 set decides -/
+def nsRes (P : Par) (s rest : Bytes) : List Val :=
+  match rest.find? (fun b => !restI b.toNat) with
+  | none => [.bytes (P.toLower s), .list []]
+  | some b => [.bytes [], errV "fmt.Errorf" [.bytes nsFmt, .int b.toNat]]
+
+theorem normalizeScheme_loop (P : Par) (s : Bytes) (l0 : Val) (fl : Env) (hs : (s.length : Int) < 9223372036854775808)
+    (rec' : Stmt → State → GoMini.Out) :
+    ∀ (rest pre : Bytes) (t : Option Val) (fuel : Nat), pre ++ rest = s →
+      ((execS (X P) (exec (X P) (fuel + rest.length)) normalizeScheme_loop0
+          ⟨[("p0", .bytes s), ("l0", l0), ("l1", .int pre.length)] ++ nsJ t, fl⟩).andThen
+        (execS (X P) rec' normalizeScheme_body.tl.tl.tl)).fin = some (nsRes P s rest, fl) := by
+  have hL : normalizeScheme_loop0 = .loop normalizeScheme_loop0.lcond normalizeScheme_loop0.lpost normalizeScheme_loop0.lbody := rfl
+  intro rest
+  induction rest with
+  | nil =>
+    intro pre t fuel hp
+    simp only [List.append_nil] at hp
+    subst hp
+    rw [hL, execS_loop]
+    cases t <;> simp [normalizeScheme_loop0, Stmt.lcond, nsJ, Env.get, nsRes, normalizeScheme_body, Stmt.tl]
+  | cons b r ih =>
+    intro pre t fuel hp
+    have hi : pre.length < s.length := by rw [← hp]; simp
+    have hb : s[pre.length] = b := by subst hp; simp
+    have hcond : evalE (X P) ⟨[("p0", .bytes s), ("l0", l0), ("l1", .int pre.length)] ++ nsJ t, fl⟩
+        normalizeScheme_loop0.lcond = .ok (.bool true) := by
+      have : (pre.length : Int) < s.length := by omega
+      cases t <;> simp [normalizeScheme_loop0, Stmt.lcond, nsJ, Env.get, this]
+    rw [hL, execS_loop, hcond]
+    simp only [Res.out_ok, condK_bool, if_true]
+    rw [← hL, normalizeScheme_iter P _ s l0 fl pre.length hi t, hb]
+    cases hr : restI b.toNat
+    · simp [nsRes, List.find?, hr]
+    · have hw : wrap .int ((pre.length : Int) + 1) = ((pre ++ [b]).length : Nat) := by
+        rw [wrap_int_id] <;> (try simp) <;> omega
+      have hrec : ∀ σ, exec (X P) (fuel + (r.length + 1)) normalizeScheme_loop0 σ =
+          execS (X P) (exec (X P) (fuel + r.length)) normalizeScheme_loop0 σ := fun σ => by
+        rw [show fuel + (r.length + 1) = (fuel + r.length) + 1 by omega, exec_succ]
+      have := ih (pre ++ [b]) (some (.int b.toNat)) fuel (by simpa using hp)
+      have hpost : normalizeScheme_loop0.lpost =
+          .assign [.loc "l1"] [.bin (.add .int) (.loc "l1") (.lit (.int 1))] := rfl
+      simp only [List.length_cons] at *
+      simp [hpost, nsJ, Env.get, Env.set, State.assign1, hw, hrec] at this ⊢
+      simpa [nsRes, List.find?, hr, nsJ] using this
+
+def nsMustStart : Bytes := [109, 117, 115, 116, 32, 115, 116, 97, 114, 116, 32, 119, 105, 116, 104, 32, 97, 32, 108, 101, 116, 116, 101, 114]
+
+/-- `normalizeScheme` on a non-empty string (the callers check `scheme == ""` first; on the empty string `s[0]` panics):
+    the first byte must be an ASCII letter, every further byte a letter, digit, `.`, `+` or `-`; the bytes are validated
+    BEFORE lower-casing, and only a valid scheme reaches `strings.ToLower` -/
+def normalizeSpec (P : Par) (c : UInt8) (r : Bytes) : List Val :=
+  if letterI c.toNat then nsRes P (c :: r) r else [.bytes [], errV "errors.New" [.bytes nsMustStart]]
+
+theorem normalizeScheme_matches_source (P : Par) (c : UInt8) (r : Bytes) (fl : Env)
+    (hs : ((c :: r).length : Int) < 9223372036854775808) (fuel : Nat) :
+    run (X P) (fuel + r.length + 1) "normalizeScheme" [.bytes (c :: r)] fl = .done (normalizeSpec P c r) fl := by
+  refine run_of_fin (X P) _ _ Gen.TransOpen.normalizeScheme _ _ _ _ rfl rfl ?_
+  show (exec (X P) (fuel + r.length + 1) normalizeScheme_body ⟨[("p0", .bytes (c :: r))], fl⟩).fin = _
+  have hb : normalizeScheme_body = .seq .skip (.seq normalizeScheme_body.tl.hd
+      (.seq (.seq normalizeScheme_body.tl.tl.hd.hd normalizeScheme_loop0) normalizeScheme_body.tl.tl.tl)) := rfl
+  have h2 : execS (X P) (exec (X P) (fuel + r.length)) normalizeScheme_body.tl.hd ⟨[("p0", .bytes (c :: r))], fl⟩ =
+      if letterI c.toNat then .normal ⟨[("p0", .bytes (c :: r)), ("l0", .int c.toNat)], fl⟩
+      else .ret [.bytes [], errV "errors.New" [.bytes nsMustStart]] ⟨[("p0", .bytes (c :: r)), ("l0", .int c.toNat)], fl⟩ := by
+    have hix : indexVal (.bytes (c :: r)) (.int 0) = .ok (.int c.toNat) := by
+      have := indexVal_bytes (c :: r) 0 (by simp); simpa using this
+    simp [normalizeScheme_body, Stmt.tl, Stmt.hd, hix, State.assign1, Env.set, Env.get, andK_ok_bool, orK_ok_bool,
+      -andK_bool, -orK_bool]
+    rcases Bool.eq_false_or_eq_true (letterI c.toNat) with h | h <;>
+      (simp only [h]; simp only [letterI] at h; simp [nsMustStart, errV]; simp at h; omega)
+  have h3 : ∀ σ, execS (X P) (exec (X P) (fuel + r.length)) normalizeScheme_body.tl.tl.hd.hd σ =
+      .normal (σ.assign1 (.loc "l1") (.int 1)) := by
+    intro σ; simp [normalizeScheme_body, Stmt.tl, Stmt.hd]
+  rw [exec_succ, hb]
+  simp only [execS_seq, execS_skip, Out.andThen_normal]
+  rw [h2]
+  simp only [normalizeSpec]
+  rcases Bool.eq_false_or_eq_true (letterI c.toNat) with h | h
+  · simp only [h, if_true, Out.andThen_normal, execS_seq]
+    rw [h3]
+    simp only [Out.andThen_normal]
+    have := normalizeScheme_loop P (c :: r) (.int c.toNat) fl hs (exec (X P) (fuel + r.length)) r [c] none fuel rfl
+    simpa [nsJ, State.assign1, Env.set] using this
+  · simp [h]
+
+/-- **normalizeScheme_is_model**: if `strings.ToLower` is ASCII lower-casing on the (validated, hence ASCII) scheme, the
+    source computes the hand model `OpenBuild.normalizeScheme` -/
+theorem normalizeScheme_is_model (P : Par) (c : UInt8) (r : Bytes)
+    (hlow : P.toLower (c :: r) = OpenBuild.lowerBytes (c :: r)) :
+    match OpenBuild.normalizeScheme (c :: r) with
+    | some n => normalizeSpec P c r = [.bytes n, .list []]
+    | none => ∃ e, normalizeSpec P c r = [.bytes [], e] := by
+  have hf : (fun b : UInt8 => !restI b.toNat) = (fun b => !OpenBuild.schemeRest b) := by
+    funext b; rw [restI_eq]
+  simp only [OpenBuild.normalizeScheme, normalizeSpec, nsRes, letterI_eq, hf]
+  cases hl : OpenBuild.isLetter c
+  · simp
+  · cases hfd : r.find? (fun b => !OpenBuild.schemeRest b) with
+    | none =>
+      have : r.all OpenBuild.schemeRest = true := by
+        rw [List.all_eq_true]; intro x hx
+        have := List.find?_eq_none.mp hfd x hx
+        simpa using this
+      simp [this, hlow]
+    | some b =>
+      have hb := List.find?_some hfd
+      have hm := List.mem_of_find?_eq_some hfd
+      have : r.all OpenBuild.schemeRest = false := by
+        rw [List.all_eq_false]; exact ⟨b, hm, by simpa using hb⟩
+      simp [this]
+
 end ZapVerif.C19
